@@ -144,6 +144,12 @@ type World struct {
 	ChunkWrites  bool // C10: observe chunked writes (set per transport)
 	NoPingResp   bool // the broker does not answer PINGREQ
 	ManualAcks   bool // the broker does not answer PUBLISH / PUBREL / SUBSCRIBE / UNSUBSCRIBE by itself (C07 scripts)
+	// GrantCap >= 0: the broker grants at most this QoS in SUBACK (MQTT 3.8.4 allows a lower QoS than requested);
+	// its subscription table still records what the client asked for, which is what the observers compare
+	GrantCap int
+	// PromptAcks: Write returns only after the client's reader has consumed the broker's answer to the packet
+	// (a very fast broker / a Write that returns late): the acknowledgement is dispatched before the caller goes on
+	PromptAcks bool
 
 	mu        sync.Mutex
 	conns     []*Transport
@@ -171,6 +177,7 @@ func NewWorld(plan Plan) *World {
 	return &World{
 		Rec: NewRecorder(), Plan: plan, typeCount: map[string]int{}, gates: map[string]*Gate{},
 		subs: map[string]int{}, inflight2: map[int]bool{}, stored: map[int]int{}, InboundTopic: "in", nextInID: 100,
+		GrantCap: -1,
 	}
 }
 
@@ -680,6 +687,9 @@ func (w *World) process(t *Transport, p *Pkt, ev Event) ([]byte, []int) {
 		for i, f := range p.Filters {
 			w.subs[f] = p.QoSs[i]
 			codes[i] = byte(p.QoSs[i])
+			if w.GrantCap >= 0 && p.QoSs[i] > w.GrantCap {
+				codes[i] = byte(w.GrantCap)
+			}
 		}
 		return SubAck(p.ID, codes), deliv
 	case 0xA0:
@@ -902,6 +912,13 @@ func (t *Transport) Write(p []byte) (int, error) {
 		if err := t.W.clientPacket(t, pkt); err != nil {
 			t.wbuf = nil
 			return 0, err
+		}
+		if t.W.PromptAcks && isRequest(pkt.Type) {
+			// wait (bounded) until everything queued for the client has been read
+			for dl := time.Now().Add(20 * time.Millisecond); time.Now().Before(dl) && !t.Drained(); {
+				time.Sleep(20 * time.Microsecond)
+			}
+			time.Sleep(50 * time.Microsecond) // ... and dispatched
 		}
 		done++
 	}
